@@ -108,6 +108,11 @@ func (y *yieldAst) CallFor(cond, post, body ast.Expr) *ast.CallExpr {
 	if isNil(post) {
 		return y.SeqCall(cstWhile, cond, body)
 	}
+	if isNil(cond) {
+		// for ; ; post { }: seq.For accepts a nil cond,
+		// a typed-nil *ast.FuncLit must not reach the printer
+		cond = X.Ident("nil")
+	}
 	return y.SeqCall(cstFor, cond, post, body)
 }
 
